@@ -27,7 +27,10 @@ class INSObserver(StandardObserver):
             return None
         from .oracle_ins import F32, F64
 
-        return store_facts(ns, store, self.model, self, tol_q=tol_q or F64)
+        # in a resumed process the density tables were re-derived (float32 accuracy) while the stored logQ of
+        # samples that are not touched again still comes from the original tables
+        default = F32 if getattr(self, "rederived", False) else F64
+        return store_facts(ns, store, self.model, self, tol_q=tol_q or default)
 
     def counts(self, ns):
         import datetime as _dt
@@ -333,6 +336,7 @@ class INSObserver(StandardObserver):
     def resume_event(self, ns):
         from .oracle_ins import F32
 
+        self.rederived = True
         # the density tables are re-derived on resume unless save_log_q: float32 accuracy
         self.em.emit("resume", digest=self.deep_digest(ns), tr=self.store_state(ns, ns.training_samples, F32),
                      iid=self.store_state(ns, ns.iid_samples, F32), **self.counts(ns))
